@@ -12,6 +12,7 @@
 package main
 
 import (
+	"context"
 	"fmt"
 	"os"
 	"os/exec"
@@ -317,7 +318,9 @@ func gen(a vh.Args) {
 			var lastOut string
 			for attempt := 0; attempt < 2; attempt++ {
 				tmp := fmt.Sprintf("%s/live_%d_%d.txt", a.Out, i, attempt)
-				cmd := exec.Command(os.Args[0], "live", "-seed", fmt.Sprint(a.Seed*1000+uint64(i)+uint64(attempt)*500), "-tier", a.Tier, "-cases", tmp, "-out", a.Out)
+				ctx, cancel := context.WithTimeout(context.Background(), 6*time.Minute)
+				defer cancel()
+				cmd := exec.CommandContext(ctx, os.Args[0], "live", "-seed", fmt.Sprint(a.Seed*1000+uint64(i)+uint64(attempt)*500), "-tier", a.Tier, "-cases", tmp, "-out", a.Out)
 				cmd.Env = append(os.Environ(), fmt.Sprintf("C04_LIVE_SPEC=%d,%v,%d", i, sp.tan, sp.exec))
 				outb, err := cmd.CombinedOutput()
 				lastOut = string(outb)
@@ -358,7 +361,9 @@ func gen(a vh.Args) {
 				_ = os.Remove(tmp + ".partial")
 				var lastOut string
 				for attempt := 0; attempt < 2; attempt++ {
-					cmd := exec.Command(os.Args[0], "export", "-seed", fmt.Sprint(a.Seed*1000+uint64(i*10+jj)+uint64(attempt)*500), "-tier", a.Tier, "-cases", tmp, "-out", a.Out)
+					ctx, cancel := context.WithTimeout(context.Background(), 2*time.Minute)
+					defer cancel()
+					cmd := exec.CommandContext(ctx, os.Args[0], "export", "-seed", fmt.Sprint(a.Seed*1000+uint64(i*10+jj)+uint64(attempt)*500), "-tier", a.Tier, "-cases", tmp, "-out", a.Out)
 					cmd.Env = append(os.Environ(), fmt.Sprintf("C04_EXPORT_SPEC=%d,%d,%v,%s", i, jx, t, kind))
 					outb, err := cmd.CombinedOutput()
 					lastOut = string(outb)
@@ -472,6 +477,11 @@ func exportChild(a vh.Args) {
 	partial := func(evs []event) {
 		_ = os.WriteFile(a.Cases+".partial", []byte(line(evs)), 0644)
 	}
+	startWatchdog(40*time.Second, func(traces [][]event) {
+		if len(traces) > 0 {
+			_ = os.WriteFile(a.Cases, []byte(line(traces[0])), 0644)
+		}
+	})
 	var etrace []event
 	var enotes map[string]int
 	var err error
@@ -505,6 +515,21 @@ func liveChild(a vh.Args) {
 		fmt.Fprintln(os.Stderr, "bad C04_LIVE_SPEC")
 		os.Exit(2)
 	}
+	dbn := "pebble"
+	if tan {
+		dbn = "tan"
+	}
+	limit := 75 * time.Second
+	if a.Tier == "thorough" {
+		limit = 240 * time.Second
+	}
+	startWatchdog(limit, func(traces [][]event) {
+		w := vh.Create(a.Cases)
+		for h, evs := range traces {
+			w.Printf("0L%dh%d live logdb=%s exec=%d truncated=1 | %s\n", i, h+1, dbn, ex, eventsStr(evs))
+		}
+		w.Close()
+	})
 	traces, notes, err := liveRun(a.Seed, tan, ex, a.Tier, 0)
 	if err != nil {
 		fmt.Fprintf(os.Stderr, "c04: live run %d (tan=%v exec=%d) failed: %v\n", i, tan, ex, err)
